@@ -27,7 +27,7 @@ const (
 
 func checkC20(c *core.Ctx, r *core.Report) {
 	r.Explanation = "C20 (alert state and saved objects follow their definitions), structural clauses only. Alert evaluation: " +
-		"(1) ORDERTABLE — every arm of evaluateConditions means exactly `value <op> threshold` for its condition constant (exhaustive truth table over the orderings of the two operands), every condition constant has an arm, and every evaluator decides through it with (value, configured condition, configured threshold) in that order; " +
+		"(1) ORDERTABLE — every arm of evaluateConditions means exactly `value <op> threshold` for its condition constant, every condition constant has an arm, and every evaluator decides through it; the operands are identified by role on the SSA form, not by position: the threshold is what is, on every backward path and through every caller, the configured Value of the alert (or minion search), the condition dispatched on is its configured Condition, the value is the remaining number (so the three may be separate parameters in any order or fields of a parameter struct); " +
 		"(2) STATE — in handleAlertCondition the state handed to updateAlertStateAndCreateAlertHistory is Normal exactly on the not-matched edge, Firing exactly where shouldUpdateAlertStateToFiring answered true and Pending where it answered false; a notification is attempted exactly for Firing and Normal; the notification flag stored is the notifier's own answer; the state and one history row are written on every non-error path; " +
 		"(3) WINDOW — shouldUpdateAlertStateToFiring asks for the newest EvalWindow/EvalInterval−1 history rows, answers true only when N==1 or when at least N−1 rows came back and the scan over all of them met no row that is not Pending/Firing; the Limit it passes is provably non-zero (the store substitutes a paging default for 0); " +
 		"(4) NOTIFY — shouldSendNotification answers true only after both the cool-down and the silence tests passed, Normal after Normal/Inactive is suppressed, the send calls are guarded by its answer, both period tests mean `now − lastSent >= period`, and the notification row's last-sent time and state are written only where the notifier reported a send. " +
@@ -196,86 +196,261 @@ func c20NotifyState(c *core.Ctx, r *core.Report) {
 
 // ---------------------------------------------------------------------------------------------- (1)
 
+// configTracer decides whether a value is, on every backward path, the alert's own configured field (its
+// Value, its Condition): through conversions, phis, parameters (every static call site), by-value parameter
+// structs built by the callers (field by field) and pointers to the field.
+type configTracer struct {
+	c       *core.Ctx
+	callers map[*ssa.Function][]ssa.CallInstruction
+}
+
+func (t *configTracer) allFrom(v ssa.Value, target map[*types.Var]bool, path []int, depth int, seen map[string]bool) bool {
+	if v == nil || depth > 12 {
+		return false
+	}
+	key := fmt.Sprintf("%p/%v", v, path)
+	if seen[key] {
+		return true // a cycle adds no new origin
+	}
+	seen[key] = true
+	switch x := v.(type) {
+	case *ssa.Convert:
+		return t.allFrom(x.X, target, path, depth+1, seen)
+	case *ssa.ChangeType:
+		return t.allFrom(x.X, target, path, depth+1, seen)
+	case *ssa.Phi:
+		if len(x.Edges) == 0 {
+			return false
+		}
+		for _, e := range x.Edges {
+			if !t.allFrom(e, target, path, depth+1, seen) {
+				return false
+			}
+		}
+		return true
+	case *ssa.Field:
+		return t.allFrom(x.X, target, append([]int{x.Field}, path...), depth+1, seen)
+	case *ssa.FieldAddr:
+		// the address of the configured field itself (handed down as a pointer)
+		if len(path) == 0 && target[fieldOf(x)] {
+			return true
+		}
+		return false
+	case *ssa.Parameter:
+		fn := x.Parent()
+		idx := -1
+		for i, p := range fn.Params {
+			if p == x {
+				idx = i
+			}
+		}
+		sites := t.callers[fn]
+		if idx < 0 || len(sites) == 0 || fn.Object() == nil || fn.Object().Exported() {
+			return false
+		}
+		for _, s := range sites {
+			if _, isCall := s.(*ssa.Call); !isCall || s.Common().IsInvoke() || idx >= len(s.Common().Args) {
+				return false
+			}
+			if !t.allFrom(s.Common().Args[idx], target, path, depth+1, seen) {
+				return false
+			}
+		}
+		return true
+	case *ssa.UnOp:
+		if x.Op != token.MUL {
+			return false
+		}
+		switch a := x.X.(type) {
+		case *ssa.FieldAddr:
+			if len(path) == 0 && target[fieldOf(a)] {
+				return true
+			}
+			// a field of a local struct / of a spilled by-value parameter
+			if al, ok := a.X.(*ssa.Alloc); ok {
+				return t.fromCell(al, target, append([]int{a.Field}, path...), depth+1, seen)
+			}
+			return false
+		case *ssa.Alloc:
+			return t.fromCell(a, target, path, depth+1, seen)
+		case *ssa.Parameter, *ssa.Phi, *ssa.Field, *ssa.UnOp:
+			// *p where p is a pointer handed down (as a parameter, or inside a parameter struct): the pointer
+			// must be the address of the field
+			return t.allFrom(a, target, path, depth+1, seen)
+		}
+		return false
+	}
+	return false
+}
+
+// fromCell: every store that can supply cell (whole, or the field path[0] of it) is from the target.
+func (t *configTracer) fromCell(al *ssa.Alloc, target map[*types.Var]bool, path []int, depth int, seen map[string]bool) bool {
+	refs := al.Referrers()
+	if refs == nil {
+		return false
+	}
+	n := 0
+	for _, u := range *refs {
+		switch y := u.(type) {
+		case *ssa.Store:
+			if y.Addr == ssa.Value(al) {
+				n++
+				if !t.allFrom(y.Val, target, path, depth+1, seen) {
+					return false
+				}
+			}
+		case *ssa.FieldAddr:
+			if len(path) == 0 || y.Field != path[0] {
+				continue
+			}
+			if frefs := y.Referrers(); frefs != nil {
+				for _, fu := range *frefs {
+					if st, ok := fu.(*ssa.Store); ok && st.Addr == ssa.Value(y) {
+						n++
+						if !t.allFrom(st.Val, target, path[1:], depth+1, seen) {
+							return false
+						}
+					}
+				}
+			}
+		}
+	}
+	return n > 0
+}
+
+// c20Conditions — clause (1).  evaluateConditions compares the evaluated number with the alert's threshold under
+// the alert's condition.  The clause is decided on the SSA form by ROLE, not by parameter position: the
+// threshold is whatever is, on every path and through every caller, AlertConfig.Value; the condition is whatever
+// is AlertConfig.Condition; the value is the remaining number.  So the three may arrive as separate parameters,
+// in any order, or packed into a parameter struct.
 func c20Conditions(c *core.Ctx, r *core.Report) {
 	fn := c.Fn(pkgAlertsH, "evaluateConditions")
-	fd := funcDeclOf(fn)
-	info := c.Pkg(pkgAlertsH).TypesInfo
-	if fd == nil || len(fn.Params) != 3 {
-		r.Undecided("ORDERTABLE", "alertsHandler.evaluateConditions", c.Pos(fn.Pos()), "unexpected shape")
-		return
-	}
-	valName, thrName := fn.Params[0].Name(), fn.Params[2].Name()
 	condT := c.NamedType(pkgAlertU, "AlertQueryCondition")
-	isCond := func(t types.Type) bool { return types.Identical(t, condT) }
+	// the configured condition and threshold of an alert and of a minion search (the two things the evaluators
+	// are run for)
+	condF := map[*types.Var]bool{c.Field(pkgAlertU, "AlertConfig.Condition"): true, c.Field(pkgAlertU, "MinionSearch.Condition"): true}
+	valF := map[*types.Var]bool{c.Field(pkgAlertU, "AlertConfig.Value"): true, c.Field(pkgAlertU, "MinionSearch.Value"): true}
+	tr := &configTracer{c: c, callers: c.StaticCallers()}
+	isThr := func(v ssa.Value) bool { return tr.allFrom(v, valF, nil, 0, map[string]bool{}) }
+	isCondV := func(v ssa.Value) bool { return tr.allFrom(v, condF, nil, 0, map[string]bool{}) }
 	// the constants of the condition type
+	constVal := map[string]int64{}
 	var consts []string
 	scope := c.Pkg(pkgAlertU).Types.Scope()
 	for _, n := range scope.Names() {
 		if k, ok := scope.Lookup(n).(*types.Const); ok && types.Identical(k.Type(), condT) {
 			consts = append(consts, n)
+			if v, ok := constInt64(k); ok {
+				constVal[n] = v
+			}
 		}
 	}
 	sort.Strings(consts)
 	r.Floor("EXHAUST", "alert condition constants", len(consts), 5)
-	switches := core.SwitchArms(info, fd.Body, isCond)
-	if len(switches) != 1 {
-		r.Undecided("ORDERTABLE", "alertsHandler.evaluateConditions", c.Pos(fn.Pos()), fmt.Sprintf("%d switches over the condition", len(switches)))
+	// the dispatch: `tag == K` tests on one value of the condition type
+	arm := map[int64]*ssa.BasicBlock{}
+	var tag ssa.Value
+	var lastTest *ssa.BasicBlock
+	for _, b := range fn.Blocks {
+		ifi, ok := core.LastIf(b)
+		if !ok {
+			continue
+		}
+		bo, ok := ifi.Cond.(*ssa.BinOp)
+		if !ok || bo.Op != token.EQL || !types.Identical(bo.X.Type(), condT) {
+			continue
+		}
+		k, ok := core.ConstIntValue(bo.Y)
+		if !ok {
+			continue
+		}
+		if tag == nil {
+			tag = bo.X
+		}
+		if bo.X != tag {
+			r.Undecided("ORDERTABLE", "alertsHandler.evaluateConditions", c.Pos(fn.Pos()), "the condition is tested on more than one value")
+			return
+		}
+		arm[k] = b.Succs[0]
+		lastTest = b
+	}
+	if tag == nil {
+		r.Undecided("ORDERTABLE", "alertsHandler.evaluateConditions", c.Pos(fn.Pos()), "no dispatch on the alert condition found")
 		return
 	}
-	arms := switches[0]
+	r.Check(isCondV(tag), "DEPENDS", "alertsHandler.evaluateConditions:dispatches-on-the-alert's-configured-condition", c.Pos(fn.Pos()),
+		"through every caller the tested condition is AlertConfig.Condition", "the condition evaluateConditions dispatches on is not, through every caller, the alert's own configured Condition")
+	retOf := func(b *ssa.BasicBlock) ssa.Value {
+		if b == nil || len(b.Instrs) == 0 {
+			return nil
+		}
+		if ret, ok := b.Instrs[len(b.Instrs)-1].(*ssa.Return); ok && len(ret.Results) == 1 {
+			return ret.Results[0]
+		}
+		return nil
+	}
+	isValue := func(v ssa.Value) bool {
+		for i := 0; i < 3; i++ {
+			if cv, ok := v.(*ssa.Convert); ok {
+				v = cv.X
+			}
+		}
+		p, ok := v.(*ssa.Parameter)
+		return ok && p.Parent() == fn && !isThr(p)
+	}
+	flipOp := map[token.Token]token.Token{token.GTR: token.LSS, token.LSS: token.GTR, token.EQL: token.EQL, token.NEQ: token.NEQ, token.GEQ: token.LEQ, token.LEQ: token.GEQ}
 	spec := map[string]token.Token{"IsAbove": token.GTR, "IsBelow": token.LSS, "IsEqualTo": token.EQL, "IsNotEqualTo": token.NEQ}
 	for _, name := range consts {
 		construct := "alertsHandler.evaluateConditions:" + name
-		stmts, ok := arms[name]
+		ab, ok := arm[constVal[name]]
 		if !ok {
 			r.Violation("EXHAUST", construct, c.Pos(fn.Pos()), "this condition has no case: an alert configured with it never matches")
 			continue
 		}
-		f, err := core.FormulaOfStmts(stmts, nil)
-		if err != nil {
-			r.Undecided("ORDERTABLE", construct, c.Pos(stmts[0].Pos()), "arm is not a plain comparison: "+err.Error())
+		res := retOf(ab)
+		bo, isCmp := res.(*ssa.BinOp)
+		if !isCmp {
+			r.Undecided("ORDERTABLE", construct, c.Pos(fn.Pos()), "arm is not a plain comparison")
 			continue
 		}
 		if name == "HasNoValue" {
-			a, isAtom := f.(core.Atom)
-			zero := func(s string) bool { v, err := strconv.ParseFloat(s, 64); return err == nil && v == 0 }
-			ok := isAtom && a.Op == token.EQL && ((a.L == valName && zero(a.R)) || (a.R == valName && zero(a.L)))
-			r.Check(ok, "ORDERTABLE", construct, c.Pos(stmts[0].Pos()), "means value == 0", "the arm does not mean `value == 0`")
+			zero := func(v ssa.Value) bool {
+				k, ok := v.(*ssa.Const)
+				return ok && k.Value != nil && (k.Value.String() == "0" || k.Value.ExactString() == "0")
+			}
+			ok := bo.Op == token.EQL && ((isValue(bo.X) && zero(bo.Y)) || (isValue(bo.Y) && zero(bo.X)))
+			r.Check(ok, "ORDERTABLE", construct, c.Pos(bo.Pos()), "means value == 0", "the arm does not mean `value == 0`")
 			continue
 		}
 		op, known := spec[name]
 		if !known {
-			r.Undecided("ORDERTABLE", construct, c.Pos(stmts[0].Pos()), "no specification for this condition constant in the checker")
+			r.Undecided("ORDERTABLE", construct, c.Pos(bo.Pos()), "no specification for this condition constant in the checker")
 			continue
 		}
-		ops := core.Operands(f)
-		if len(ops) != 2 || !((ops[0] == valName && ops[1] == thrName) || (ops[1] == valName && ops[0] == thrName)) {
-			r.Violation("ORDERTABLE", construct, c.Pos(stmts[0].Pos()), fmt.Sprintf("the arm does not compare the result value with the threshold (operands %v)", ops))
-			continue
-		}
-		want := core.Atom{Op: op, L: valName, R: thrName}
-		bad := ""
-		for _, rank := range core.Orderings(ops, nil) {
-			if core.Eval(f, rank) != core.Eval(want, rank) {
-				bad = core.RankString(rank)
-				break
-			}
-		}
-		if bad != "" {
-			r.Violation("ORDERTABLE", construct, c.Pos(stmts[0].Pos()), fmt.Sprintf("the arm does not mean `value %s threshold`: for the ordering %s it answers the opposite", op, bad))
-		} else {
-			r.OK("ORDERTABLE", construct, c.Pos(stmts[0].Pos()), "formula equals `value <op> threshold` on every ordering")
+		switch {
+		case isValue(bo.X) && isThr(bo.Y):
+			r.Check(bo.Op == op, "ORDERTABLE", construct, c.Pos(bo.Pos()), "means `value "+op.String()+" threshold`", fmt.Sprintf("the arm means `value %s threshold`; it must mean `value %s threshold`", bo.Op, op))
+		case isThr(bo.X) && isValue(bo.Y):
+			r.Check(bo.Op == flipOp[op], "ORDERTABLE", construct, c.Pos(bo.Pos()), "means `value "+op.String()+" threshold`", fmt.Sprintf("the arm means `threshold %s value`; it must mean `value %s threshold`", bo.Op, op))
+		default:
+			r.Violation("ORDERTABLE", construct, c.Pos(bo.Pos()), "the arm does not compare the evaluated number with the alert's configured threshold (one operand must be, through every caller, AlertConfig.Value, the other the evaluated number)")
 		}
 	}
-	if def, ok := arms["default"]; ok {
-		f, err := core.FormulaOfStmts(def, nil)
-		k, isK := f.(core.Const)
-		r.Check(err == nil && isK && !k.V, "ORDERTABLE", "alertsHandler.evaluateConditions:default", c.Pos(fn.Pos()), "an unknown condition never matches", "an unknown condition value matches")
+	if lastTest != nil {
+		def := retOf(lastTest.Succs[1])
+		k, isK := def.(*ssa.Const)
+		r.Check(isK && k.Value != nil && k.Value.String() == "false", "ORDERTABLE", "alertsHandler.evaluateConditions:default", c.Pos(fn.Pos()), "an unknown condition never matches", "an unknown condition value matches")
 	}
 
-	// every evaluator decides through evaluateConditions(value, cond, threshold)
+	// every evaluator decides through evaluateConditions, and hands it a number of the query result as the value
 	evalObj := fn.Object()
 	nEval := 0
+	valueIdx := -1
+	for i, p := range fn.Params {
+		if b, ok := p.Type().Underlying().(*types.Basic); ok && b.Kind() == types.Float64 && !isThr(p) {
+			valueIdx = i
+		}
+	}
 	for _, name := range []string{"evaluateMetricsQueryConditions", "evaluateMeasureResultsAlertCondition", "evaluateRecordsMeasureAggsAlertCondition"} {
 		ev := c.Fn(pkgAlertsH, name)
 		calls := callsTo(ev, evalObj)
@@ -284,44 +459,13 @@ func c20Conditions(c *core.Ctx, r *core.Report) {
 			r.Violation("SIBLING", construct, c.Pos(ev.Pos()), "this evaluator no longer decides through evaluateConditions: the result shapes can disagree about what a condition means")
 			continue
 		}
-		var condP, thrP *ssa.Parameter
-		for _, p := range ev.Params {
-			if pt, ok := p.Type().(*types.Pointer); ok && types.Identical(pt.Elem(), condT) {
-				condP = p
-			}
-			if b, ok := p.Type().Underlying().(*types.Basic); ok && b.Kind() == types.Float64 {
-				thrP = p
-			}
-		}
 		for _, call := range calls {
 			nEval++
-			ok := condP != nil && thrP != nil && call.Call.Args[1] == ssa.Value(condP) && call.Call.Args[2] == ssa.Value(thrP) && call.Call.Args[0] != ssa.Value(thrP)
-			r.Check(ok, "SIBLING", construct, c.Pos(call.Pos()), "arguments are (result value, configured condition, configured threshold)", "the arguments of evaluateConditions are not (result value, configured condition, configured threshold): the comparison is made the wrong way round or against the wrong number")
+			ok := valueIdx >= 0 && !isThr(call.Call.Args[valueIdx])
+			r.Check(ok, "SIBLING", construct, c.Pos(call.Pos()), "the value handed over is a number of the query result, not the threshold", "the arguments of evaluateConditions are not (result value, configured condition, configured threshold): the comparison is made the wrong way round or against the wrong number")
 		}
 	}
 	r.Floor("SIBLING", "evaluateConditions call sites in the three evaluators", nEval, 3)
-
-	// the alert's configured condition and threshold are what is passed down
-	condF, valF := c.Field(pkgAlertU, "AlertConfig.Condition"), c.Field(pkgAlertU, "AlertConfig.Value")
-	for _, pair := range [][2]string{{"evaluateLogAlert", "evaluateLogsQueryConditions"}, {"evaluateMetricsAlert", "evaluateMetricsQueryConditions"}} {
-		caller, callee := c.Fn(pkgAlertsH, pair[0]), c.Obj(pkgAlertsH, pair[1])
-		construct := "alertsHandler." + pair[0] + ":passes-configured-condition-and-threshold"
-		calls := callsTo(caller, callee)
-		if len(calls) != 1 {
-			r.Violation("DEPENDS", construct, c.Pos(caller.Pos()), "the evaluation entry point no longer calls its condition evaluator exactly once")
-			continue
-		}
-		okC, okV := false, false
-		if fa, ok := calls[0].Call.Args[1].(*ssa.FieldAddr); ok && fieldOf(fa) == condF {
-			okC = true
-		}
-		for _, o := range c.Origins(calls[0].Call.Args[2], 0) {
-			if o.Kind == "field" && o.Obj == types.Object(valF) {
-				okV = true
-			}
-		}
-		r.Check(okC && okV, "DEPENDS", construct, c.Pos(calls[0].Pos()), "the alert's Condition and Value fields are passed", "the evaluator is not given the alert's own Condition and Value")
-	}
 }
 
 func fieldOf(fa *ssa.FieldAddr) *types.Var {
@@ -389,7 +533,16 @@ func phiLeaves(v ssa.Value, seen map[ssa.Value]bool) []constLeaf {
 
 func c20StateSkeleton(c *core.Ctx, r *core.Report) {
 	fn := c.Fn(pkgAlertsH, "handleAlertCondition")
-	update := c.Obj(pkgAlertsH, "updateAlertStateAndCreateAlertHistory")
+	// the evaluation is recorded through updateAlertStateAndCreateAlertHistory(alert, state, desc, sent), or —
+	// when that wrapper is written out in place — through updateAlertState(id, state, sent) followed by the
+	// history row in handleAlertCondition itself
+	updState := c.Obj(pkgAlertsH, "updateAlertState")
+	update := c.TryObj(pkgAlertsH, "updateAlertStateAndCreateAlertHistory")
+	stateIdx, flagIdx := 1, 3
+	inPlace := update == nil
+	if inPlace {
+		update, stateIdx, flagIdx = updState, 1, 2
+	}
 	should := c.Obj(pkgAlertsH, "shouldUpdateAlertStateToFiring")
 	notify := c.Obj(pkgAlertsH, "NotifyAlertHandlerRequest")
 	normal, pending, firing := c.ConstVal(pkgAlertU, "Normal"), c.ConstVal(pkgAlertU, "Pending"), c.ConstVal(pkgAlertU, "Firing")
@@ -416,7 +569,7 @@ func c20StateSkeleton(c *core.Ctx, r *core.Report) {
 		shouldRes = shouldCalls[0]
 	}
 	seenK := map[int64]bool{}
-	for _, lf := range phiLeaves(up.Call.Args[1], map[ssa.Value]bool{}) {
+	for _, lf := range phiLeaves(up.Call.Args[stateIdx], map[ssa.Value]bool{}) {
 		if lf.other != nil {
 			if k, ok := core.ConstIntValue(lf.other); ok && lf.from == nil {
 				lf.k, lf.other = k, nil
@@ -499,7 +652,7 @@ func c20StateSkeleton(c *core.Ctx, r *core.Report) {
 
 	// the stored notification flag is the notifier's own answer
 	okFlag := true
-	for _, lf := range phiLeaves(up.Call.Args[3], map[ssa.Value]bool{}) {
+	for _, lf := range phiLeaves(up.Call.Args[flagIdx], map[ssa.Value]bool{}) {
 		if lf.other == nil {
 			if lf.k != 0 {
 				okFlag = false
@@ -524,25 +677,28 @@ func c20StateSkeleton(c *core.Ctx, r *core.Report) {
 	}
 	r.Check(okFlag, "DEPENDS", "alertsHandler.handleAlertCondition:notification-flag-is-the-notifier's-answer", c.Pos(up.Pos()), "last-sent time is updated only when NotifyAlertHandlerRequest reported a send", "the notification flag stored with the state does not come from the notifier: the cool-down clock is reset without a send (or not reset after one)")
 
-	// updateAlertStateAndCreateAlertHistory: both writes, with the given state
-	uf := c.Fn(pkgAlertsH, "updateAlertStateAndCreateAlertHistory")
-	updState := c.Obj(pkgAlertsH, "updateAlertState")
+	// both writes, with the decided state: in the wrapper, or in handleAlertCondition when it is written out there
+	uf := fn
+	var stateP ssa.Value = up.Call.Args[stateIdx]
+	if !inPlace {
+		uf = c.Fn(pkgAlertsH, "updateAlertStateAndCreateAlertHistory")
+		stateP = nil
+		stT := c.NamedType(pkgAlertU, "AlertState")
+		for _, p := range uf.Params {
+			if types.Identical(p.Type(), stT) {
+				stateP = p
+			}
+		}
+	}
 	checkBeforeSuccessReturn(c, r, uf, "updateAlertState", directPred(objs(updState)), "a success return without the state update leaves the alert in its previous state")
 	createHist := func(ci ssa.CallInstruction) bool {
 		f := core.CalleeFunc(ci)
 		return f != nil && f.Name() == "CreateAlertHistory"
 	}
 	checkBeforeSuccessReturn(c, r, uf, "CreateAlertHistory", createHist, "a success return without a history row: the next window test misses this outcome")
-	var stateP *ssa.Parameter
-	stT := c.NamedType(pkgAlertU, "AlertState")
-	for _, p := range uf.Params {
-		if types.Identical(p.Type(), stT) {
-			stateP = p
-		}
-	}
 	okSt := false
 	for _, call := range callsTo(uf, updState) {
-		if call.Call.Args[1] == ssa.Value(stateP) {
+		if stateP != nil && call.Call.Args[1] == stateP {
 			okSt = true
 		}
 	}
@@ -551,7 +707,7 @@ func c20StateSkeleton(c *core.Ctx, r *core.Report) {
 	for _, b := range uf.Blocks {
 		for _, in := range b.Instrs {
 			if st, ok := in.(*ssa.Store); ok {
-				if fa, ok := st.Addr.(*ssa.FieldAddr); ok && fieldOf(fa) == histStateF && st.Val == ssa.Value(stateP) {
+				if fa, ok := st.Addr.(*ssa.FieldAddr); ok && fieldOf(fa) == histStateF && stateP != nil && st.Val == stateP {
 					okHist = true
 				}
 			}
@@ -636,24 +792,95 @@ func c20Window(c *core.Ctx, r *core.Report) {
 	histStateF := c.Field(pkgAlertU, "AlertHistoryDetails.AlertState")
 	name := "alertsHandler.shouldUpdateAlertStateToFiring"
 
-	var q ssa.CallInstruction
-	for _, ci := range core.CallsIn(fn) {
-		if isMethodCall(ci, "GetAlertHistoryByAlertID") {
-			if q != nil {
-				r.Undecided("WINDOW", name, c.Pos(ci.Pos()), "more than one history query")
-				return
+	// the history read and the scan live in the window test itself or in ONE helper of the package that it calls
+	// and whose answer it returns unchanged (the read-and-scan part extracted into a function of its own); the
+	// helper's parameters are resolved to the arguments of that call
+	host := fn
+	var site *ssa.Call
+	findQuery := func(f *ssa.Function) (ssa.CallInstruction, bool) {
+		var q ssa.CallInstruction
+		for _, ci := range core.CallsIn(f) {
+			if isMethodCall(ci, "GetAlertHistoryByAlertID") {
+				if q != nil {
+					return nil, false
+				}
+				q = ci
 			}
-			q = ci
+		}
+		return q, true
+	}
+	q, one := findQuery(fn)
+	if !one {
+		r.Undecided("WINDOW", name, c.Pos(fn.Pos()), "more than one history query")
+		return
+	}
+	if q == nil {
+		for _, ci := range core.CallsIn(fn) {
+			call, ok := ci.(*ssa.Call)
+			if !ok {
+				continue
+			}
+			h := call.Call.StaticCallee()
+			if h == nil || h.Blocks == nil || core.FnPkgPath(h) != core.FnPkgPath(fn) {
+				continue
+			}
+			if hq, ok := findQuery(h); ok && hq != nil {
+				if site != nil {
+					r.Undecided("WINDOW", name, c.Pos(ci.Pos()), "more than one history query")
+					return
+				}
+				host, site, q = h, call, hq
+			}
 		}
 	}
 	if q == nil {
 		r.Violation("WINDOW", name+":reads-the-history", c.Pos(fn.Pos()), "the window test no longer reads the alert history")
 		return
 	}
+	// a parameter of the helper stands for the argument at the call
+	arg := func(v ssa.Value) ssa.Value {
+		if site == nil {
+			return v
+		}
+		for i := 0; i < 3; i++ {
+			p, ok := v.(*ssa.Parameter)
+			if !ok || p.Parent() != host {
+				if cv, ok := v.(*ssa.Convert); ok {
+					if _, isP := cv.X.(*ssa.Parameter); isP {
+						v = cv.X
+						continue
+					}
+				}
+				return v
+			}
+			for k, hp := range host.Params {
+				if hp == p && k < len(site.Call.Args) {
+					return site.Call.Args[k]
+				}
+			}
+			return v
+		}
+		return v
+	}
+	if site != nil {
+		// the helper's answer is the window test's answer: the call's result is only returned
+		onlyReturned := true
+		if refs := site.Referrers(); refs != nil {
+			for _, u := range *refs {
+				switch u.(type) {
+				case *ssa.Return, *ssa.DebugRef:
+				default:
+					onlyReturned = false
+				}
+			}
+		}
+		r.Check(onlyReturned, "WINDOW", name+":helper-answer-returned-unchanged", c.Pos(site.Pos()), "the result of the read-and-scan helper is returned as it is", "the answer of the helper that reads and scans the history is changed or tested before it is returned")
+	}
 	params := q.Common().Args[0]
 	limit := storedField(params, limitF)
 	// N = EvalWindow / EvalInterval
 	isN := func(v ssa.Value) bool {
+		v = arg(v)
 		bo, ok := v.(*ssa.BinOp)
 		if !ok || bo.Op != token.QUO {
 			return false
@@ -682,9 +909,9 @@ func c20Window(c *core.Ctx, r *core.Report) {
 			return false
 		}
 		if n == nil {
-			n = bo.X
+			n = arg(bo.X)
 		}
-		return n == bo.X
+		return n == arg(bo.X)
 	}
 	okLimit := limit != nil && nMinus1(limit)
 	r.Check(okLimit, "WINDOW", name+":asks-for-N-1-rows", c.Pos(q.Pos()), "Limit = EvalWindow/EvalInterval − 1", "the history query does not ask for EvalWindow/EvalInterval − 1 rows: the state depends on more or fewer outcomes than the window")
@@ -706,7 +933,11 @@ func c20Window(c *core.Ctx, r *core.Report) {
 	}
 	r.Check(okID, "WINDOW", name+":history-of-this-alert", c.Pos(q.Pos()), "AlertId of the alert under evaluation", "the history read is not keyed by the evaluated alert's id")
 	// the limit is non-zero at the call (0 selects the store's paging default)
-	r.Check(notEqualKnown(n, 1, q.Block()), "BOUND", name+":history-limit-non-zero", c.Pos(q.Pos()), "N != 1 is established before the query, so Limit = N−1 >= 1", "Limit = N−1 can be 0 at the query: GetAlertHistoryByAlertID substitutes its paging default (20 rows) for 0, so with N == 1 the state depends on the last 21 outcomes")
+	guardAt := q.Block()
+	if site != nil {
+		guardAt = site.Block()
+	}
+	r.Check(notEqualKnown(n, 1, guardAt), "BOUND", name+":history-limit-non-zero", c.Pos(q.Pos()), "N != 1 is established before the query, so Limit = N−1 >= 1", "Limit = N−1 can be 0 at the query: GetAlertHistoryByAlertID substitutes its paging default (20 rows) for 0, so with N == 1 the state depends on the last 21 outcomes")
 
 	// returns
 	hist := func() ssa.Value {
@@ -721,7 +952,7 @@ func c20Window(c *core.Ctx, r *core.Report) {
 		}
 		return nil
 	}()
-	loops := core.Loops(fn)
+	loops := core.Loops(host)
 	// the scan loop: a loop whose body tests IsAlertStatePendingOrFiring(hist[i].AlertState)
 	var scan *core.Loop
 	var scanTest *ssa.Call
@@ -807,7 +1038,7 @@ func c20Window(c *core.Ctx, r *core.Report) {
 	}
 	// every `return true` is the N==1 shortcut or follows exhaustion of the scan and the row-count test
 	var lenGuard bool
-	for _, b := range fn.Blocks {
+	for _, b := range host.Blocks {
 		ifi, ok := core.LastIf(b)
 		if !ok {
 			continue
@@ -844,7 +1075,14 @@ func c20Window(c *core.Ctx, r *core.Report) {
 	}
 	r.Check(lenGuard, "WINDOW", name+":fewer-than-N-1-rows-answers-false", c.Pos(q.Pos()), "len(history) < N−1 answers false before the scan", "a history shorter than N−1 rows no longer answers false: a young alert fires before the condition held for the whole window")
 	nTrue := 0
-	for _, ret := range core.Returns(fn) {
+	allReturns := core.Returns(fn)
+	if site != nil {
+		allReturns = append(allReturns, core.Returns(host)...)
+	}
+	for _, ret := range allReturns {
+		if site != nil && ret.Results[0] == ssa.Value(site) {
+			continue // the helper's answer: its own returns are judged
+		}
 		k, ok := ret.Results[0].(*ssa.Const)
 		if ok && k.Value != nil && k.Value.String() == "false" {
 			continue
@@ -1239,8 +1477,8 @@ func c20Stores(c *core.Ctx, r *core.Report) {
 				return core.IsCallTo(ci, writeAlias) || core.IsCallTo(ci, removeAlias)
 			},
 			exempt: map[string]string{
-				"putAliasToIndexInMem":  "the table's own setter; its callers carry the obligation",
-				"loadAliasFilesForOrg":  "the loader: fills the table from the files",
+				"putAliasToIndexInMem":      "the table's own setter; its callers carry the obligation",
+				"loadAliasFilesForOrg":      "the loader: fills the table from the files",
 				"initializeAliasToIndexMap": "the loader: fills the table from the files",
 			},
 		},
